@@ -305,3 +305,43 @@ func releaseBetween(fn *ssa.Function, a, b ssa.Instruction, lock string) bool {
 	})
 	return found
 }
+
+// boolWay is one way a function returns its (first) result: a return statement, or — when the returned
+// value is a phi of the returning block (a short-circuit expression) — one incoming edge of it; facts
+// are the comparison facts known on that way.
+type boolWay struct {
+	ret   *ssa.Return
+	v     ssa.Value
+	facts []an.Cmp
+}
+
+func boolWays(f *ssa.Function) []boolWay {
+	var out []boolWay
+	ef := an.EdgeFacts(f)
+	for _, r := range an.Returns(f) {
+		vals := an.ResultValues(r)
+		if len(vals) == 0 {
+			continue
+		}
+		v := vals[0]
+		ph, isPhi := v.(*ssa.Phi)
+		if !isPhi || ph.Block() != r.Block() {
+			out = append(out, boolWay{r, v, necessaryFacts(f, r)})
+			continue
+		}
+		for i, e := range ph.Edges {
+			pred := ph.Block().Preds[i]
+			var facts []an.Cmp
+			if len(pred.Instrs) > 0 {
+				facts = append(facts, necessaryFacts(f, pred.Instrs[len(pred.Instrs)-1])...)
+			}
+			for k, sc := range pred.Succs {
+				if sc == ph.Block() {
+					facts = append(facts, ef[an.Edge{From: pred, Succ: k}]...)
+				}
+			}
+			out = append(out, boolWay{r, e, facts})
+		}
+	}
+	return out
+}
